@@ -9,6 +9,7 @@ structure DS where
   s : St
   inflight : List Bool := []      -- hooks of the calls in flight, oldest first (true = the promise hook)
   weak : Bool := false            -- a weak reference to t was saved
+  stale : Bool := false           -- a handle on t was released (the script kept the dead handle)
 
 def drain (s : St) : St :=
   let s := match step false s (.passDone false) with | some s' => s' | none => s
@@ -55,6 +56,10 @@ def apiOp (d : DS) (op : String) : DS × String :=
   | "upT" =>
     if !d.weak then (d, "skip")
     else if d.s.t.refs = 0 then (d, "gone") else ({ d with s := app d.s [.weakAdd false] }, "-")
+  | "staleT" => if !d.stale then (d, "skip") else (d, "released")   -- a released handle is dead: invalid, calls refused
+  | "relT" =>
+    let (s', r) := apiOp0 d.s op
+    ({ d with s := s', stale := d.stale || decide (r ≠ "skip") }, r)
   | _ => let (s', r) := apiOp0 d.s op; ({ d with s := s' }, r)
 
 def run : List String → String
